@@ -18,21 +18,6 @@ Proof.
   cbn [fst snd] in H. rewrite Hn in H. exact H.
 Qed.
 
-Lemma mem_false_of_notin s l : ~ In s l -> mem s l = false.
-Proof.
-  intros H. unfold mem. destruct (existsb (Z.eqb s) l) eqn:E; [|reflexivity].
-  apply existsb_exists in E. destruct E as [x [Hx Hxs]]. apply Z.eqb_eq in Hxs. subst x. contradiction.
-Qed.
-
-Lemma forall_negotiable_except_spec ex f :
-  forall_negotiable_except ex f = true ->
-  forall s v, In s all_suites -> In v all_versions -> negotiable s v = true -> ~ In s ex -> f s v = true.
-Proof.
-  unfold forall_negotiable_except. intros H s v Hs Hv Hn Hex.
-  rewrite forallb_forall in H. specialize (H (s, v) (in_pairs s v Hs Hv)).
-  cbn [fst snd] in H. rewrite Hn, (mem_false_of_notin s ex Hex) in H. exact H.
-Qed.
-
 (* ---- the decided facts -------------------------------------------------------------- *)
 Lemma wf_true : tables_wf = true /\ semantics_cover = true.
 Proof. split; vm_compute; reflexivity. Qed.
@@ -58,30 +43,19 @@ Proof. vm_compute. reflexivity. Qed.
 Lemma kx_words_all : forall_negotiable chk_kx_words = true.
 Proof. vm_compute. reflexivity. Qed.
 
-(* the four statements that are false of today's tables, all at suite 163 = 0x00A3
-   TLS_DHE_DSS_WITH_AES_256_GCM_SHA384, negotiable in TLS 1.2 *)
-Definition known_bad : list Z := [163].
-
-Lemma mac_accessor_except : forall_negotiable_except known_bad (fun s _ => chk_mac_accessor s) = true.
+(* Before /repo commit "fix: AEAD suites 0x00A3/0x00A5 must not be listed as HMAC-SHA384 suites"
+   the four statements below were false exactly at suite 163 = 0x00A3
+   TLS_DHE_DSS_WITH_AES_256_GCM_SHA384, v = 3 (it was in sha384Suites and in aeadSuites); the
+   development then carried mac_classification_refuted (witness 163, 3) and a _partial form
+   excluding 163.  On the repaired tree they hold without exception. *)
+Lemma mac_accessor_all : forall_negotiable (fun s _ => chk_mac_accessor s) = true.
 Proof. vm_compute. reflexivity. Qed.
-Lemma lists_except : forall_negotiable_except known_bad (fun s _ => chk_lists s) = true.
+Lemma lists_all : forall_negotiable (fun s _ => chk_lists s) = true.
 Proof. vm_compute. reflexivity. Qed.
-Lemma mac_words_except : forall_negotiable_except known_bad chk_mac_words = true.
+Lemma mac_words_all : forall_negotiable chk_mac_words = true.
 Proof. vm_compute. reflexivity. Qed.
-Lemma partition_except : forall_negotiable_except known_bad (fun s _ => chk_partition s) = true.
+Lemma partition_all : forall_negotiable (fun s _ => chk_partition s) = true.
 Proof. vm_compute. reflexivity. Qed.
-
-Lemma witness_negotiable : In 163 all_suites /\ In 3 all_versions /\ negotiable 163 3 = true.
-Proof. split; [|split]; vm_compute; auto 200. Qed.
-
-Lemma witness_mac_accessor : chk_mac_accessor 163 = false.
-Proof. vm_compute. reflexivity. Qed.
-Lemma witness_lists : chk_list "sha384Suites" 163 = false.
-Proof. vm_compute. reflexivity. Qed.
-Lemma witness_mac_words : chk_mac_words 163 3 = false.
-Proof. vm_compute. reflexivity. Qed.
-Lemma witness_partition : in_exactly_one mac_lists 163 = false /\ count_in mac_lists 163 = 2.
-Proof. split; vm_compute; reflexivity. Qed.
 
 (* ---- lifted forms ---------------------------------------------------------------------- *)
 Definition dom (s v : Z) : Prop := In s all_suites /\ In v all_versions /\ negotiable s v = true.
@@ -118,9 +92,6 @@ Proof.
   exact (H (s, v) (in_pairs s v Hs Hv)).
 Qed.
 
-Lemma not_in_known_bad s : s <> 163 -> ~ In s known_bad.
-Proof. intros H [E|[]]. apply H. symmetry. exact E. Qed.
-
 Lemma version_classes_all : forall_negotiable chk_version_classes = true.
 Proof. vm_compute. reflexivity. Qed.
 
@@ -134,37 +105,32 @@ Proof.
   - exact (forall_negotiable_spec _ version_classes_all s v Hs Hv Hn).
 Qed.
 
-Lemma L_cipher_kx_words : forall s v,
+Lemma L_settings_words : forall s v,
   In s all_suites -> In v all_versions -> negotiable s v = true ->
-  chk_cipher_words s v = true /\ chk_kx_words s v = true.
+  chk_cipher_words s v = true /\ chk_mac_words s v = true /\ chk_kx_words s v = true.
 Proof.
-  intros s v Hs Hv Hn. split.
+  intros s v Hs Hv Hn. repeat split.
   - exact (forall_negotiable_spec _ cipher_words_all s v Hs Hv Hn).
+  - exact (forall_negotiable_spec _ mac_words_all s v Hs Hv Hn).
   - exact (forall_negotiable_spec _ kx_words_all s v Hs Hv Hn).
 Qed.
 
-Lemma L_cipher_accessor : forall s v,
-  In s all_suites -> In v all_versions -> negotiable s v = true -> chk_cipher_accessor s = true.
-Proof. intros s v Hs Hv Hn. exact (forall_negotiable_spec _ cipher_accessor_all s v Hs Hv Hn). Qed.
-
-Lemma L_partial : forall s v,
-  In s all_suites -> In v all_versions -> negotiable s v = true -> s <> 163 ->
-  chk_mac_accessor s = true /\ chk_lists s = true /\ chk_mac_words s v = true /\ chk_partition s = true.
+Lemma L_accessors : forall s v,
+  In s all_suites -> In v all_versions -> negotiable s v = true ->
+  chk_cipher_accessor s = true /\ chk_mac_accessor s = true.
 Proof.
-  intros s v Hs Hv Hn Hne. pose proof (not_in_known_bad s Hne) as Hex. repeat split.
-  - exact (forall_negotiable_except_spec _ _ mac_accessor_except s v Hs Hv Hn Hex).
-  - exact (forall_negotiable_except_spec _ _ lists_except s v Hs Hv Hn Hex).
-  - exact (forall_negotiable_except_spec _ _ mac_words_except s v Hs Hv Hn Hex).
-  - exact (forall_negotiable_except_spec _ _ partition_except s v Hs Hv Hn Hex).
+  intros s v Hs Hv Hn. split.
+  - exact (forall_negotiable_spec _ cipher_accessor_all s v Hs Hv Hn).
+  - exact (forall_negotiable_spec _ mac_accessor_all s v Hs Hv Hn).
 Qed.
 
-Lemma L_refuted : exists s v,
-  In s all_suites /\ In v all_versions /\ negotiable s v = true /\
-  chk_mac_accessor s = false /\ chk_lists s = false /\ chk_mac_words s v = false /\ chk_partition s = false.
-Proof.
-  exists 163, 3. destruct witness_negotiable as [A [B C]].
-  repeat split; try assumption; vm_compute; reflexivity.
-Qed.
+Lemma L_lists : forall s v,
+  In s all_suites -> In v all_versions -> negotiable s v = true -> chk_lists s = true.
+Proof. intros s v Hs Hv Hn. exact (forall_negotiable_spec _ lists_all s v Hs Hv Hn). Qed.
+
+Lemma L_partition : forall s v,
+  In s all_suites -> In v all_versions -> negotiable s v = true -> chk_partition s = true.
+Proof. intros s v Hs Hv Hn. exact (forall_negotiable_spec _ partition_all s v Hs Hv Hn). Qed.
 
 Lemma L_classification : forall s v,
   In s all_suites -> In v all_versions -> negotiable s v = true ->
